@@ -102,6 +102,58 @@ impl<K: Eq + Hash, V> DashMap<K, V> {
         Some(mapref::one::RefMut { _g: g, k: kp, v: vp })
     }
 
+    pub fn try_get<'a>(&'a self, k: &K) -> try_result::TryResult<mapref::one::Ref<'a, K, V>> {
+        let i = self.idx(k);
+        let g = match self.shards[i].try_read() {
+            Some(g) => g,
+            None => return try_result::TryResult::Locked,
+        };
+        let (kp, vp) = match g.get_key_value(k) {
+            Some((k, v)) => (k as *const K, v as *const V),
+            None => return try_result::TryResult::Absent,
+        };
+        try_result::TryResult::Present(mapref::one::Ref { _g: g, k: kp, v: vp })
+    }
+
+    pub fn try_get_mut<'a>(&'a self, k: &K) -> try_result::TryResult<mapref::one::RefMut<'a, K, V>> {
+        let i = self.idx(k);
+        let g = match self.shards[i].try_write() {
+            Some(g) => g,
+            None => return try_result::TryResult::Locked,
+        };
+        let (kp, vp) = match g.get_key_value(k) {
+            Some((k, v)) => (k as *const K, v as *const V as *mut V),
+            None => return try_result::TryResult::Absent,
+        };
+        try_result::TryResult::Present(mapref::one::RefMut { _g: g, k: kp, v: vp })
+    }
+
+    pub fn remove_if(&self, k: &K, f: impl FnOnce(&K, &V) -> bool) -> Option<(K, V)> {
+        let i = self.idx(k);
+        let mut g = self.shards[i].write();
+        let keep = match g.get_key_value(k) {
+            Some((kk, v)) => !f(kk, v),
+            None => return None,
+        };
+        if keep {
+            None
+        } else {
+            g.remove_entry(k)
+        }
+    }
+
+    pub fn alter(&self, k: &K, f: impl FnOnce(&K, V) -> V)
+    where
+        K: Clone,
+    {
+        let i = self.idx(k);
+        let mut g = self.shards[i].write();
+        if let Some((kk, v)) = g.remove_entry(k) {
+            let nv = f(&kk, v);
+            g.insert(kk, nv);
+        }
+    }
+
     pub fn iter(&self) -> iter::Iter<'_, K, V> {
         iter::Iter { map: self, shard: 0, cur: None }
     }
@@ -110,6 +162,40 @@ impl<K: Eq + Hash, V> DashMap<K, V> {
 impl<K: Eq + Hash, V> Default for DashMap<K, V> {
     fn default() -> Self {
         Self::new()
+    }
+}
+
+pub mod try_result {
+    /// Result of the non-blocking lookups (`try_get`, `try_get_mut`).
+    #[derive(Debug)]
+    pub enum TryResult<R> {
+        Present(R),
+        Absent,
+        Locked,
+    }
+    impl<R> TryResult<R> {
+        pub fn is_present(&self) -> bool {
+            matches!(self, TryResult::Present(_))
+        }
+        pub fn is_absent(&self) -> bool {
+            matches!(self, TryResult::Absent)
+        }
+        pub fn is_locked(&self) -> bool {
+            matches!(self, TryResult::Locked)
+        }
+        pub fn unwrap(self) -> R {
+            match self {
+                TryResult::Present(r) => r,
+                TryResult::Locked => panic!("Called unwrap() on TryResult::Locked"),
+                TryResult::Absent => panic!("Called unwrap() on TryResult::Absent"),
+            }
+        }
+        pub fn try_unwrap(self) -> Option<R> {
+            match self {
+                TryResult::Present(r) => Some(r),
+                _ => None,
+            }
+        }
     }
 }
 
